@@ -161,14 +161,15 @@ def pinnedFoldSites : List (String × String × Nat) :=
    ("predicates.py", "InPredicate.__call__", 1),
    ("value.py", "KnownValue.__hash__", 1),
    ("value.py", "MultiValuedValue.can_assign", 1),
+   ("value.py", "concrete_values_from_iterable", 1),
    ("value.py", "_HashableValue.can_assign", 1)]
 
 def foldSitesPresent (sites : List (String × String × List String)) : Bool :=
   pinnedFoldSites.all fun p => decide (p.2.2 ≤ (sites.filter fun s => s.1 == p.1 && s.2.1 == p.2.1).length)
 
 /-- fold expressions outside every `try:` in the pinned tree. Each was probed (see harness corpus): most are protected by a type test
-just before them; `f'{….val!r}'` / `repr(val.val)` / `len(value.val)` are the finding classes `hugeIntRepr` / `hugeRangeLen`. A *new*
-unguarded fold is a new obligation failure. -/
+just before them; the `KnownValue.__str__` repr and the `len(value.val)` of `concrete_values_from_iterable` were the finding classes
+`hugeIntRepr` / `hugeRangeLen` and are inside a `try:` since 891931a / fe3a397 (re-pinned). A *new* unguarded fold is a new obligation failure. -/
 def pinnedUnguardedFolds : List (String × String × String) :=
   [("name_check_visitor.py", "NameCheckVisitor._extract_exception_types", "f'{subval.val!r}'"),
    ("name_check_visitor.py", "NameCheckVisitor.visit_Assign", "value.val in self.current_enum_members"),
@@ -184,13 +185,11 @@ def pinnedUnguardedFolds : List (String × String × String) :=
    ("value.py", "KnownValue.__hash__", "hash((type(self.val), id(self.val)))"),
    ("value.py", "KnownValue.__str__", "f'{self.val.__name__!r}'"),
    ("value.py", "KnownValue.__str__", "f'{get_fully_qualified_name(self.val)!r}'"),
-   ("value.py", "KnownValue.__str__", "f'{self.val!r}'"),
    ("value.py", "TypedValue.can_assign_thrift_enum", "other.val in self.typ._VALUES_TO_NAMES"),
    ("value.py", "TypedDictValue.can_assign", "key_type.val not in self.items"),
    ("value.py", "TypedDictValue.can_assign", "f'{key_type.val!r}'"),
    ("value.py", "TypedDictValue.can_assign", "key not in other.val"),
    ("value.py", "MultiValuedValue.__str__", "repr(val.val)"),
-   ("value.py", "concrete_values_from_iterable", "len(value.val)"),
    ("value.py", "_HashableValue.can_assign", "f'{other.val!r}'")]
 
 def unguardedFoldsKnown (l : List (String × String × String)) : Bool := l.all pinnedUnguardedFolds.contains
